@@ -598,55 +598,117 @@ def method_of(tu, rec, name):
             f['q'].split('::')[-1] == name and tu.cfg(f) is not None]
 
 
-def flag_read(tu, rec, e, depth=0):
-    """(field id, order|'plain', polarity) if e is true exactly when the flag member is true (+1) / false (-1)"""
+def mpath(tu, e, prefix=()):
+    """path of data-member accesses rooted at `this`: prefix + (field ids); () + prefix for `this` itself"""
+    c = core(tu, e)
+    if c is None:
+        return None
+    if c.get('kind') == 'CXXThisExpr':
+        return tuple(prefix)
+    if c.get('kind') == 'MemberExpr' and 'fi' in tu.sd(c) and tu.kids(c):
+        b = mpath(tu, tu.kids(c)[0], prefix)
+        return None if b is None else b + (tu.sd(c).get('d'),)
+    return None
+
+
+def path_field(tu, rec, path):
+    """field entry (name, ct, ...) of the last element of a member path starting in record rec"""
+    r = rec
+    f = None
+    for fid in path:
+        f = next((x for x in (r or {}).get('fields', []) if x['id'] == fid), None)
+        if f is None:
+            return None
+        rs = X.record_of_type(tu, f['ct'])
+        r = rs[0] if rs else None
+    return f
+
+
+def path_name(tu, rec, path):
+    names = []
+    r = rec
+    for fid in path:
+        f = next((x for x in (r or {}).get('fields', []) if x['id'] == fid), None)
+        if f is None:
+            return '?'
+        names.append(f['name'])
+        rs = X.record_of_type(tu, f['ct'])
+        r = rs[0] if rs else None
+    return '.'.join(names)
+
+
+def member_call(tu, x, prefix=()):
+    """(callee fn, object path, args) for a call of a member function with a body on `this` or on a (sub)member object of it"""
+    if x is None or x.get('kind') != 'CXXMemberCallExpr':
+        return None
+    sd, obj, args = tu.call_parts(x)
+    callee = tu.callee_fn(x)
+    if obj is None or callee is None or tu.cfg(callee) is None or callee['dep']:
+        return None
+    p = mpath(tu, obj, prefix)
+    if p is None:
+        return None
+    return callee, p, args
+
+
+def value_path(tu, e, prefix=(), depth=0):
+    """member path whose value / object e denotes: a member, a local copy or reference of it, or an accessor returning it"""
+    p = mpath(tu, e, prefix)
+    if p is not None and len(p) > len(prefix):
+        return p
+    if depth > 4:
+        return None
+    d = tu.node(decl_ref(tu, e)) if decl_ref(tu, e) else None
+    if d is not None and d.get('kind') == 'VarDecl' and tu.kids(d) and tu.enclosing_fn(d) is not None:
+        return value_path(tu, tu.kids(d)[-1], prefix, depth + 1)
+    mc = member_call(tu, core(tu, e), prefix)
+    if mc is not None:
+        callee, p2, args = mc
+        rets = [n for b, i, n in tu.cfg(callee).stmts() if n.get('kind') == 'ReturnStmt' and tu.kids(n)]
+        if len(rets) == 1:
+            return value_path(tu, tu.kids(rets[0])[0], p2, depth + 1)
+    return None
+
+
+def flag_read(tu, rec, e, depth=0, prefix=()):
+    """(member path, order|'plain', polarity, load node) if e is true exactly when the flag member is true (+1) / false (-1);
+    accessors of `this` and of member objects are followed"""
     c = core(tu, e)
     if c is None or depth > 4:
         return None
     k = c.get('kind')
     if k == 'UnaryOperator' and c.get('opcode') == '!':
-        r = flag_read(tu, rec, tu.kids(c)[0], depth + 1)
+        r = flag_read(tu, rec, tu.kids(c)[0], depth + 1, prefix)
         return None if r is None else (r[0], r[1], -r[2]) + tuple(r[3:])
     a = atomic_op(tu, c)
     if a is not None and a[0] == 'load':
-        m = member_of_this(tu, a[1])
-        if m is not None:
+        m = mpath(tu, a[1], prefix)
+        if m is not None and len(m) > len(prefix):
             return (m, a[3], 1, c)
         return None
-    m = member_of_this(tu, c)
-    if m is not None and X.clean_t(tu.sd(c).get('ct', '')) == 'bool':
+    m = mpath(tu, c, prefix)
+    if m is not None and len(m) > len(prefix) and X.clean_t(tu.sd(c).get('ct', '')) == 'bool':
         return (m, 'plain', 1, c)
-    if k == 'CXXMemberCallExpr':
-        sd, obj, args = tu.call_parts(c)
-        callee = tu.callee_fn(c)
-        if obj is not None and X.is_this_expr(tu, obj) and callee is not None and callee.get('recid') == rec['id'] and not args:
-            rets = [n for b, i, n in tu.cfg(callee).stmts() if n.get('kind') == 'ReturnStmt'] if tu.cfg(callee) else []
-            if len(rets) == 1 and tu.kids(rets[0]):
-                return flag_read(tu, rec, tu.kids(rets[0])[0], depth + 1)
+    mc = member_call(tu, c, prefix)
+    if mc is not None and not mc[2]:
+        callee, p2, args = mc
+        rets = [n for b, i, n in tu.cfg(callee).stmts() if n.get('kind') == 'ReturnStmt']
+        if len(rets) == 1 and tu.kids(rets[0]):
+            return flag_read(tu, rec, tu.kids(rets[0])[0], depth + 1, p2)
     return None
 
 
 def roles(ctx, W, o):
-    """(result field id, flag field id) from get() / finished()"""
+    """(result member path, flag member path) from get() / finished()"""
     tu, rec = o.tu, o.rec
     gets = method_of(tu, rec, 'get')
     fins = method_of(tu, rec, 'finished')
     if len(gets) != 1 or len(fins) != 1:
         return None
     res = None
-
-    def origin(e, depth=0):
-        """member of this whose value e denotes, looking through local variables (copies / references)"""
-        m = member_of_this(tu, e)
-        if m is not None or depth > 4:
-            return m
-        d = tu.node(decl_ref(tu, e)) if decl_ref(tu, e) else None
-        if d is not None and d.get('kind') == 'VarDecl' and tu.kids(d) and tu.enclosing_fn(d) is not None:
-            return origin(tu.kids(d)[-1], depth + 1)
-        return None
     for b, i, n in tu.cfg(gets[0]).stmts():
         if n.get('kind') == 'ReturnStmt' and tu.kids(n):
-            m = origin(tu.kids(n)[0])
+            m = value_path(tu, tu.kids(n)[0])
             if m is None or (res is not None and m != res):
                 return None
             res = m
@@ -662,13 +724,29 @@ def roles(ctx, W, o):
     return res, flag, gets[0], fins[0]
 
 
-def result_uses(tu, fn, res):
-    """classify every access to the result member in fn: ('read'|'result-moved-out'|'result-modified'|'undecided', text, node)"""
+def result_uses(tu, fn, res, prefix=(), depth=0):
+    """classify every access to the result member (path res) in fn: ('read'|'result-moved-out'|'result-modified'|'undecided',
+    text, node). Methods of member objects on the way to the result are followed; an accessor returning a reference to the
+    result denotes the result at its call site."""
     out = []
     decl = X.fn_decl(tu, fn)
     name = fn['q'].split('::')[-1]
+    if not isinstance(res, tuple):
+        res = (res,)
     for x in tu.walk(decl):
-        if x.get('kind') != 'MemberExpr' or tu.sd(x).get('d') != res or member_of_this(tu, x) != res:
+        is_res = x.get('kind') == 'MemberExpr' and mpath(tu, x, prefix) == res
+        if not is_res and x.get('kind') == 'CXXMemberCallExpr' and depth < 3:
+            mc = member_call(tu, x, prefix)
+            if mc is not None and len(mc[1]) > len(prefix) and mc[1] == res[:len(mc[1])]:
+                callee, p2, args = mc
+                rt = callee.get('fty', '').split('(')[0].rstrip()
+                if value_path(tu, x, prefix) == res and rt.endswith('&'):
+                    is_res = True           # accessor: the call expression is the result object
+                else:
+                    for kind, text, y in result_uses(tu, callee, res, p2, depth + 1):
+                        if kind != 'read':
+                            out.append((kind, text + ' (reached from %s() through %s at %s)' % (name, tu.show(x), tu.loc(x)), y))
+        if not is_res:
             continue
         cur, moved = x, False
         verdict = None
@@ -739,7 +817,9 @@ def result_uses(tu, fn, res):
                 break
             if k == 'ReturnStmt':
                 rt = fn.get('fty', '').split('(')[0]
-                if moved and rt.rstrip().endswith('&&'):
+                if depth > 0 and rt.rstrip().endswith('&') and not moved:
+                    verdict = ('read', '', x)        # accessor of a member object: the use is classified at its call site
+                elif moved and rt.rstrip().endswith('&&'):
                     verdict = ('undecided', '%s() returns an rvalue reference to the result member' % name, x)
                 elif rt.rstrip().endswith('&') and 'const' not in rt:
                     verdict = ('undecided', '%s() returns a non-const reference to the result member' % name, x)
@@ -791,11 +871,20 @@ def check_result_protocol(ctx, W, o, joiner):
                       'finished()) of %s' % rec['q'], tu.fn_loc(o.ctor))
         return 1
     res, flag, getf, finf = rl
-    resn, flagn = o.fields[res]['name'], o.fields[flag]['name']
+    resn, flagn = path_name(tu, rec, res), path_name(tu, rec, flag)
+    family = {rec['id']}       # the class and the classes of the member objects that hold result / flag
+    for pth in (res, flag):
+        r0 = rec
+        for fid in pth[:-1]:
+            f0 = next((x for x in (r0 or {}).get('fields', []) if x['id'] == fid), None)
+            rs0 = X.record_of_type(tu, f0['ct']) if f0 else []
+            r0 = rs0[0] if rs0 else None
+            if r0 is not None:
+                family.add(r0['id'])
     n = 0
     # ---- the flag is an atomic
     n += 1
-    fct = o.fields[flag]['ct']
+    fct = (path_field(tu, rec, flag) or {}).get('ct', '?')
     file = tu.fn_file(o.ctor)
     if re.match(r'^std::atomic<(bool|char|signed char|unsigned char|short|unsigned short|int|unsigned int|long|unsigned long)>$', fct):
         ctx.ok(R3, inst0 + ': completion flag `%s`' % flagn, 'type %s' % fct, tu.fn_loc(o.ctor))
@@ -810,6 +899,22 @@ def check_result_protocol(ctx, W, o, joiner):
     gg = tu.cfg(getf)
     gproblems, relies, weak_loads = [], [], []
     gbusy = set()
+
+    def touches_res(fn, prefix, depth=0):
+        for y in tu.walk(X.fn_decl(tu, fn) or {}):
+            if y.get('kind') == 'MemberExpr' and mpath(tu, y, prefix) == res:
+                return True
+            mc0 = member_call(tu, y, prefix) if depth < 3 else None
+            if mc0 is not None and mc0[0]['id'] != fn['id'] and touches_res(mc0[0], mc0[1], depth + 1):
+                return True
+        return False
+
+    def denotes_res(x):
+        """x evaluates / yields the result object: the member itself or a call of a member object's method that accesses it"""
+        if x.get('kind') == 'MemberExpr' and mpath(tu, x) == res:
+            return True
+        mc0 = member_call(tu, x)
+        return mc0 is not None and len(mc0[1]) >= 1 and mc0[1] == res[:len(mc0[1])] and touches_res(mc0[0], mc0[1])
 
     def gtransfer(blk, idx, e, st):
         if e[0] != 'S':
@@ -832,7 +937,7 @@ def check_result_protocol(ctx, W, o, joiner):
                     return ['J']
                 if sub and all(y in ('J', 'F') for y in sub):
                     return ['F']
-        if x.get('kind') == 'MemberExpr' and member_of_this(tu, x) == res and not gbusy:
+        if denotes_res(x) and not gbusy:
             if st == 'U':
                 gproblems.append(('get-unsynchronised', 'get() reads the result `%s` at %s on a path where neither the completion flag '
                                   'was seen true (with acquire or stronger) nor the task was waited for: it can return a value that is '
@@ -867,9 +972,10 @@ def check_result_protocol(ctx, W, o, joiner):
                                  'reference' % ((tu.node(w) or {}).get('name'), qt), tu.loc(clo.node)))
     memo = {}
 
-    def prepare(fn, functors):
-        """event table of one function body; functors = decl ids that denote the task function there"""
-        key = (fn['id'], tuple(sorted(functors)))
+    def prepare(fn, functors, resparams=frozenset(), prefix=()):
+        """event table of one function body; functors = decl ids that denote the task function there, resparams = parameters
+        that carry the task function's result, prefix = member path of `this` relative to the owner"""
+        key = (fn['id'], tuple(sorted(functors)), tuple(sorted(resparams)), prefix)
         if key in memo:
             return memo[key]
         g = tu.cfg(fn)
@@ -884,15 +990,13 @@ def check_result_protocol(ctx, W, o, joiner):
                     ev[x['id']] = ('invoke', x)
                     results.add(x['id'])
                     continue
-            if k == 'CXXMemberCallExpr':
-                sd, obj, args = tu.call_parts(x)
-                callee = tu.callee_fn(x)
-                if obj is not None and X.is_this_expr(tu, obj) and callee is not None and callee.get('recid') == rec['id'] \
-                        and tu.cfg(callee) is not None and not atomic_op(tu, x):
-                    nf = {callee['params'][ai]['id'] for ai, a in enumerate(args)
-                          if ai < len(callee['params']) and decl_ref(tu, a) in functors}
-                    ev[x['id']] = ('call', x, callee, nf)
-                    continue
+            mc0 = member_call(tu, x, prefix) if k == 'CXXMemberCallExpr' and not atomic_op(tu, x) else None
+            if mc0 is not None and mc0[0].get('recid') in family:
+                callee, p2, args = mc0
+                nf = {callee['params'][ai]['id'] for ai, a in enumerate(args)
+                      if ai < len(callee['params']) and decl_ref(tu, a) in functors}
+                ev[x['id']] = ('call', x, callee, nf, p2, args)
+                continue
             if k in ('CallExpr', 'CXXMemberCallExpr') + X.CONSTRUCTS and k not in ('CXXMemberCallExpr',):
                 sd, obj, args = X.call_parts(tu, x)
                 if sd.get('q') not in X.FORWARDERS and not (k in X.CONSTRUCTS and X.is_copy_construct(tu, x)) and \
@@ -900,7 +1004,7 @@ def check_result_protocol(ctx, W, o, joiner):
                     ev[x['id']] = ('unknown', x, sd.get('q'))
                     continue
             a = atomic_op(tu, x)
-            if a is not None and member_of_this(tu, a[1]) == flag:
+            if a is not None and mpath(tu, a[1], prefix) == flag:
                 if a[0] == 'store':
                     ev[x['id']] = ('flag-store', x, a)
                 continue
@@ -908,13 +1012,13 @@ def check_result_protocol(ctx, W, o, joiner):
                                                                    tu.sd(x).get('q', '').split('::')[-1] == 'operator='):
                 ks = tu.kids(x)
                 lhs, rhs = (ks[0], ks[1]) if k == 'BinaryOperator' else (ks[1], ks[2]) if len(ks) >= 3 else (None, None)
-                if lhs is not None and member_of_this(tu, lhs) == res:
+                if lhs is not None and mpath(tu, lhs, prefix) == res:
                     ev[x['id']] = ('res-store', x, rhs)
                     continue
-                if lhs is not None and member_of_this(tu, lhs) == flag:
+                if lhs is not None and mpath(tu, lhs, prefix) == flag:
                     ev[x['id']] = ('flag-store', x, ('store', lhs, rhs, 'plain'))
                     continue
-            if k == 'MemberExpr' and tu.sd(x).get('d') == res and member_of_this(tu, x) == res:
+            if k == 'MemberExpr' and mpath(tu, x, prefix) == res:
                 ev[x['id']] = ('res-access', x)
         decl = X.fn_decl(tu, fn)
         for _ in range(2):          # locals carrying the task function's result
@@ -926,25 +1030,35 @@ def check_result_protocol(ctx, W, o, joiner):
         for nid, e in list(ev.items()):
             if e[0] == 'res-store':
                 c = core(tu, e[2])
-                if not (c is not None and (c.get('id') in results or decl_ref(tu, c) in results)):
+                if not (c is not None and (c.get('id') in results or decl_ref(tu, c) in results or decl_ref(tu, c) in resparams)):
                     und.append('the value stored into `%s` at %s is not recognised as the result of the task function' % (resn, tu.loc(e[1])))
                 lhs = core(tu, tu.kids(e[1])[0] if e[1].get('kind') == 'BinaryOperator' else tu.kids(e[1])[1])
                 if lhs is not None:
                     store_nodes[lhs['id']] = nid      # the MemberExpr on the left belongs to the store
+        for nid, e in list(ev.items()):
+            if e[0] == 'call':
+                callee, args = e[2], e[5]
+                nr = set()
+                for ai, a in enumerate(args):
+                    c = core(tu, a)
+                    if ai < len(callee['params']) and c is not None and (c.get('id') in results or decl_ref(tu, c) in results
+                                                                          or decl_ref(tu, c) in resparams):
+                        nr.add(callee['params'][ai]['id'])
+                ev[nid] = e[:5] + (frozenset(nr),)
         memo[key] = (g, ev, store_nodes)
         return memo[key]
     summaries = {}
 
-    def run_fn(fn, functors, st0, depth=0):
+    def run_fn(fn, functors, st0, depth=0, resparams=frozenset(), prefix=()):
         """exit states of fn entered in state st0 = (invoked, stored, flagged, saw-unknown-call)"""
-        skey = (fn['id'], tuple(sorted(functors)), st0)
+        skey = (fn['id'], tuple(sorted(functors)), st0, tuple(sorted(resparams)), prefix)
         if skey in summaries:
             return summaries[skey]
         if depth > 6:
             und.append('call chain from the closure too deep at %s' % fn['q'])
             return {st0}
         summaries[skey] = {st0}     # recursion guard
-        g, ev, store_nodes = prepare(fn, functors)
+        g, ev, store_nodes = prepare(fn, functors, resparams, prefix)
 
         def transfer(blk, idx, e, st):
             if e[0] != 'S':
@@ -956,7 +1070,7 @@ def check_result_protocol(ctx, W, o, joiner):
             if x[0] == 'invoke':
                 return [(min(2, inv + 1), sto, flg, unk)]
             if x[0] == 'call':
-                return sorted(run_fn(x[2], x[3], st, depth + 1))
+                return sorted(run_fn(x[2], x[3], st, depth + 1, x[5], x[4]))
             if x[0] == 'unknown':
                 return [(inv, sto, flg, True)]
             if x[0] == 'res-store':
@@ -1018,10 +1132,11 @@ def check_result_protocol(ctx, W, o, joiner):
         ctx.ok(R3, cinst, 'task function invoked once; `%s` stored, then `%s` = true (atomic, seq_cst/release); no access to `%s` afterwards'
                % (resn, flagn, resn), tu.fn_loc(op))
     # ---- readers of the flag use at least acquire
-    for m in [f for f in tu.functions.values() if f.get('recid') == rec['id'] and not f['dep'] and tu.cfg(f) is not None]:
+    for m in [f for f in tu.functions.values() if f.get('recid') in family and not f['dep'] and tu.cfg(f) is not None]:
         for b, i, x in tu.cfg(m).stmts():
             a = atomic_op(tu, x)
-            if a is not None and a[0] == 'load' and member_of_this(tu, a[1]) == flag:
+            am = mpath(tu, a[1]) if a is not None else None
+            if a is not None and a[0] == 'load' and am and am[-1] == flag[-1]:
                 n += 1
                 minst = inst0 + ': %s reads `%s`' % (m['q'].split('::')[-1], flagn)
                 licensing = any(wn is not None and wn.get('id') == x.get('id') for wn, wo in weak_loads)
@@ -1207,7 +1322,7 @@ class Joiner:
                 out = refine(blk, si, st)
                 if blk.cond and len(blk.succ) == 2:
                     r = flag_read(tu, srec, tu.node(blk.cond))
-                    if r is not None and r[0] in joined_flags and r[1] in (2, 4, 5) and ((si == 0) == (r[2] == 1)):
+                    if r is not None and len(r[0]) == 1 and r[0][0] in joined_flags and r[1] in (2, 4, 5) and ((si == 0) == (r[2] == 1)):
                         return [full]
                 return out
             exits, res = X.exit_states(g, [frozenset()], inner_transfer, refine2)
@@ -2336,9 +2451,21 @@ def check_wake_protocol(ctx, W, tu, verdicts=None):
             if x.get('kind') == 'CallExpr' and tu.sd(x).get('q') == SEM_SIGNAL:
                 sd, obj, args = tu.call_parts(x)
                 if len(args) >= 2:
-                    for y in tu.walk(args[1]):
-                        if y.get('kind') == 'MemberExpr' and 'fi' in tu.sd(y) and member_of_this(tu, y):
-                            wake_fields.setdefault((f.get('recid'), member_of_this(tu, y)), y.get('name'))
+                    srcs, seenv = [args[1]], set()
+                    while srcs:             # the count expression, through local variables that hold it
+                        e0 = srcs.pop()
+                        for y in tu.walk(e0):
+                            if y.get('kind') == 'MemberExpr' and 'fi' in tu.sd(y) and member_of_this(tu, y):
+                                wake_fields.setdefault((f.get('recid'), member_of_this(tu, y)), y.get('name'))
+                            if y.get('kind') == 'DeclRefExpr':
+                                vd = tu.node(y.get('referencedDecl', {}).get('id'))
+                                if vd is not None and vd.get('kind') == 'VarDecl' and vd['id'] not in seenv and \
+                                        tu.enclosing_fn(vd) is not None and tu.kids(vd):
+                                    seenv.add(vd['id'])
+                                    srcs.append(tu.kids(vd)[-1])
+                                    for b2, i2, z in tu.cfg(f).stmts():     # and later assignments to it
+                                        if z.get('kind') == 'BinaryOperator' and z.get('opcode') == '=' and decl_ref(tu, tu.kids(z)[0]) == vd['id']:
+                                            srcs.append(tu.kids(z)[1])
 
     def is_check(x):
         if x.get('kind') not in X.CALLS:
@@ -3454,10 +3581,12 @@ def run_world(ctx, W):
             if o.callee is not None:
                 roots.append((tu, o.callee, o.pidx))
     n1, names = check_handoff(ctx, W, roots)
-    n2 = 0
+    n2 = n2o = 0
     for cfg in CONFIGS:
         for o in owners[cfg]:
-            n2 += check_construct_before_start(ctx, W, o)
+            k2 = check_construct_before_start(ctx, W, o)
+            n2 += k2
+            n2o += 1 if k2 else 0
     J = Joiner(W)
     n3 = n4 = 0
     for cfg in CONFIGS:
@@ -3488,7 +3617,7 @@ def run_world(ctx, W):
         n8 = check_scheduler_teardown(ctx, W, info) + check_drain_before_discard(ctx, W, [W.tasksys], info)
         n9 = check_thread_index(ctx, W, info)
     check_witness(ctx, W)
-    return dict(n11=n11, n10=n10, n9=n9, n8=n8, n7s=n7s, n7p=n7p, n1=n1 + n_sub, names=names, n2=n2, n3=n3, n4=n4, n5=n5, n6=n6, nsites=nsites)
+    return dict(n2o=n2o, n11=n11, n10=n10, n9=n9, n8=n8, n7s=n7s, n7p=n7p, n1=n1 + n_sub, names=names, n2=n2, n3=n3, n4=n4, n5=n5, n6=n6, nsites=nsites)
 
 
 def floors(ctx, r, tag=''):
@@ -3499,7 +3628,8 @@ def floors(ctx, r, tag=''):
         want = need | ({'schedule_internal'} if cfg == 'INTERNAL' else set())
         if not want <= r['names'].get(cfg, set()):
             ctx.broken('%s: hand-off chain incomplete under %s%s: missing %s' % (R1, cfg, tag, sorted(want - r['names'].get(cfg, set()))))
-    ctx.floor(R2, r['n2'], 12, 'touched members x AsyncTask<int>/<std::string> x 4 backends: 16' + tag)
+    ctx.floor(R2, r['n2'], 8, 'at least one member touched by the started closure for AsyncTask<int>/<std::string> x 4 backends (16 on the pinned tree)' + tag)
+    ctx.floor(R2, r['n2o'], 8, 'AsyncTask<int>/<std::string> constructors x 4 backends whose closure touches members of the object' + tag)
     ctx.floor(R3, r['n3'], 32, 'flag type, closure, flag readers, result uses, get() x 2 instantiations x 4 backends: 56' + tag)
     ctx.floor(R4, r['n4'], 9, '~AsyncTask x 2 instantiations x 4 backends + WaitforTask' + tag)
     ctx.floor(R5, r['n5'], 8, 'async<IntJob>, async<StringJob&> x 4 backends' + tag)
